@@ -24,6 +24,9 @@ func init() { verifChecks["C06"] = checkC06 }
 type c06Cfg struct {
 	MaxAttempts int `json:"switchover_max_attempts"`
 	TimeoutS    int `json:"switchover_timeout_s"`
+	// NoSemiSync: semi_sync: false - a planned request is approved with one alive replica, so it can be
+	// approved while another HA host is unreachable or dubious
+	NoSemiSync bool `json:"semi_sync_off,omitempty"`
 }
 
 type c06Case struct {
@@ -36,7 +39,7 @@ type c06Case struct {
 }
 
 var c06Alphabet = []string{"tick", "adv5", "advT", "fileTo3", "fileFrom1", "fileForced", "workerTo3", "workerNoTransition", "abort",
-	"stuckOn", "stuckOff", "failChangeOn", "failChangeOff", "handover", "h2dies", "masterDies", "lightOn", "lightOff"}
+	"stuckOn", "stuckOff", "failChangeOn", "failChangeOff", "handover", "h2dies", "masterDies", "lightOn", "lightOff", "dubiousOn", "dubiousOff"}
 
 type c06Req struct {
 	id        string
@@ -53,6 +56,9 @@ func c06Run(r *vt.Run, c c06Case, report bool) (canon string) {
 	spec := Spec{HA: []string{"h1", "h2", "h3"}, Conf: map[string]string{"failover": "true", "failover_cooldown": "1s", "slave_catch_up_timeout": "8s",
 		"switchover_max_attempts": fmt.Sprint(c.Cfg.MaxAttempts), "switchover_timeout": fmt.Sprintf("%ds", c.Cfg.TimeoutS),
 		"wait_start_replication_timeout": "2s", "replication_convergence_timeout_switchover": "6s"}}
+	if c.Cfg.NoSemiSync {
+		spec.Conf["semi_sync"] = "false"
+	}
 	violate := func(clause, detail string) {
 		if report {
 			r.Violate("C06/"+clause, detail+fmt.Sprintf("; config %+v history %v", c.Cfg, c.Hist), c)
@@ -261,6 +267,12 @@ func c06Run(r *vt.Run, c c06Case, report bool) (canon string) {
 					}
 					dyn()
 				}
+			case "dubiousOn", "dubiousOff":
+				// an HA replica other than the manager's own host refuses connections with error 1040
+				// (too many connections): the manager cannot tell whether it is alive
+				for _, x := range []string{"h2", "h3"} {
+					w.Servers[x].Dubious = ev == "dubiousOn" && x != mgrHost
+				}
 			case "failChangeOn":
 				for _, x := range spec.HA {
 					w.Servers[x].FailOps = map[string]uint16{"CHANGE_SOURCE": 1201}
@@ -403,10 +415,10 @@ func checkC06(r *vt.Run) {
 		c06Run(r, rc, true)
 		return
 	}
-	cfgs := []c06Cfg{{3, 30}, {1, 1800}}
+	cfgs := []c06Cfg{{MaxAttempts: 3, TimeoutS: 30}, {MaxAttempts: 1, TimeoutS: 1800}}
 	depth := 4
 	if r.Thorough() {
-		cfgs = []c06Cfg{{3, 30}, {1, 1800}, {0, 30}, {1, 30}, {0, 1800}}
+		cfgs = []c06Cfg{{MaxAttempts: 3, TimeoutS: 30}, {MaxAttempts: 1, TimeoutS: 1800}, {MaxAttempts: 0, TimeoutS: 30}, {MaxAttempts: 1, TimeoutS: 30}, {MaxAttempts: 0, TimeoutS: 1800}}
 		depth = 6
 	}
 	r.Bound("depth", depth)
@@ -444,6 +456,10 @@ func checkC06(r *vt.Run) {
 				return !last("failChangeOn", "failChangeOff")
 			case "failChangeOff":
 				return last("failChangeOn", "failChangeOff")
+			case "dubiousOn":
+				return !last("dubiousOn", "dubiousOff")
+			case "dubiousOff":
+				return last("dubiousOn", "dubiousOff")
 			case "lightOn":
 				return !last("lightOn", "lightOff")
 			case "lightOff":
@@ -474,6 +490,17 @@ func checkC06(r *vt.Run) {
 		vBFS(r, "after-aborted-attempt|", append([]string{"workerToMaster"}, c06Alphabet...), depth-1, enabled, func(hist []string) string {
 			return runner(append(append([]string(nil), aborted...), hist...))
 		})
+		// without semi-sync a planned request is approved while another HA host is dubious (refuses
+		// connections with error 1040): attempts that fail for that reason are attempts like any other
+		if cfg.MaxAttempts > 0 {
+			cfgNS := cfg
+			cfgNS.NoSemiSync = true
+			vBFS(r, "dubious|", []string{"tick", "fileFrom1", "fileTo3", "dubiousOn", "dubiousOff", "adv5", "abort", "h2dies"}, depth+1, enabled, func(hist []string) string {
+				c := c06Case{Cfg: cfgNS, Hist: hist}
+				r.Crumb(c)
+				return fmt.Sprintf("%+v|", cfgNS) + c06Run(r, c, true)
+			})
+		}
 		// long histories: a request whose attempts keep failing, one attempt every 5 s, until well past
 		// the timeout (each attempt is younger than the timeout, the request is not)
 		for _, kind := range []string{"fileForced", "fileFrom1", "workerNoTransition"} {
